@@ -1366,7 +1366,20 @@ fn grid() {
                         7 => { let w = std::mem::replace(&mut v, $mk); w.into_iter().nth(k).map(|d| d.0).into_iter().collect() }
                         8 => { let w = std::mem::replace(&mut v, $mk); w.into_iter().skip(k).step_by(2).map(|d| d.0).collect() }
                         9 => { let w = std::mem::replace(&mut v, $mk); w.into_iter().nth_back(k).map(|d| d.0).into_iter().collect() }
-                        _ => { let w = std::mem::replace(&mut v, $mk); let mut it = w.into_iter(); let x = it.nth(k).map(|d| d.0); let c = it.count() as u32; x.into_iter().chain(std::iter::once(c)).collect() }
+                        10 => { let w = std::mem::replace(&mut v, $mk); let mut it = w.into_iter(); let x = it.nth(k).map(|d| d.0); let c = it.count() as u32; x.into_iter().chain(std::iter::once(c)).collect() }
+                        // folds, counts and the size hints before and after partial consumption
+                        11 => { let d = v.drain(a..b); let h = d.size_hint(); let sum = d.fold(0u32, |acc, x| acc * 3 + x.0); vec![h.0 as u32, h.1.unwrap_or(999) as u32, sum] }
+                        12 => v.drain(a..b).rfold(Vec::new(), |mut acc, x| { acc.push(x.0); acc }),
+                        13 => vec![v.drain(a..b).count() as u32],
+                        14 => { let mut d = v.drain(a..b); let h0 = d.size_hint(); let x = d.next().map(|d| d.0); let y = d.next_back().map(|d| d.0); let h1 = d.size_hint(); let l = d.len();
+                                vec![h0.0 as u32, h0.1.unwrap_or(999) as u32, x.unwrap_or(77), y.unwrap_or(77), h1.0 as u32, h1.1.unwrap_or(999) as u32, l as u32] }
+                        15 => { let w = std::mem::replace(&mut v, $mk); let mut it = w.into_iter(); let h0 = it.size_hint(); for _ in 0..k { it.next(); } let y = it.next_back().map(|d| d.0); let h1 = it.size_hint(); let l = it.len();
+                                vec![h0.0 as u32, h0.1.unwrap_or(999) as u32, y.unwrap_or(77), h1.0 as u32, h1.1.unwrap_or(999) as u32, l as u32, it.as_slice().len() as u32] }
+                        16 => { let w = std::mem::replace(&mut v, $mk); let mut it = w.into_iter(); for _ in 0..k { it.next_back(); } it.rfold(Vec::new(), |mut acc, x| { acc.push(x.0); acc }) }
+                        17 => { let w = std::mem::replace(&mut v, $mk); let mut it = w.into_iter(); it.next(); vec![it.fold(7u32, |acc, x| acc * 5 + x.0)] }
+                        18 => { let led2 = led.clone(); let mut sp = v.splice(a..b, (0..k as u32).map(move |i| D(100 + i, led2.clone()))); let h = sp.size_hint(); let x = sp.nth(1).map(|d| d.0); let y = sp.next_back().map(|d| d.0); drop(sp);
+                                vec![h.0 as u32, h.1.unwrap_or(999) as u32, x.unwrap_or(77), y.unwrap_or(77)] }
+                        _ => { let led2 = led.clone(); v.splice(a..b, (0..k as u32).map(move |i| D(100 + i, led2.clone()))).rev().map(|d| d.0).collect() }
                     };
                     let mut mid = led.borrow().clone();
                     mid.sort();
@@ -1381,12 +1394,15 @@ fn grid() {
                 for a in 0..=n.min(3) {
                     for b in a..=n {
                         for k in 0..4usize {
-                            for how in 0..11 {
-                                if how >= 7 && (a != 0 || b != n) { continue; }
+                            for how in 0..20 {
+                                if ((7..=10).contains(&how) || (15..=17).contains(&how)) && (a != 0 || b != n) { continue; }
                                 let rb = scenario!(BVec::new_in(&bump), n, a, b, k, how);
                                 let rs = scenario!(Vec::new(), n, a, b, k, how);
                                 cases += 1;
-                                let once = rb.3 == (0..n as u32).collect::<Vec<_>>();
+                                // every original element and every replacement that was produced is dropped exactly once
+                                let mut want: Vec<u32> = (0..n as u32).collect();
+                                if how >= 18 { want.extend((0..k as u32).map(|i| 100 + i)); }
+                                let once = rb.3 == want;
                                 if rb != rs || !once {
                                     bad += 1;
                                     if bad <= 3 { println!("Q drain_adaptors n={} range={}..{} k={} how={} | got={:?} left={:?} dropped_then={:?} dropped_in_all={:?} | got={:?} left={:?} dropped_then={:?}", n, a, b, k, how, rb.0, rb.1, rb.2, rb.3, rs.0, rs.1, rs.2); }
